@@ -495,9 +495,6 @@ theorem upgrade_reaches_target (br : BR) (op : Op) (c : Cfg) (w : World) (exp : 
 
 /-! ## runs: any number of retries, any fault index at every call, events in between -/
 
-theorem matchCount_batch (br : BR) (b : Int) (w : World) :
-    matchCount { br with currentBatch := b } w = matchCount br w := rfl
-
 /-- **C06 `initialize_single_canary`** — in every run (any sequence of `Initialize` / `UpgradeBatch` /
     `EnsureBatchPodsReadyAndLabeled` / `Finalize` calls, each with its own fault index, any number of
     retries, the creation expectation lost / timed out / observed at any point, the Deployment controller
@@ -530,34 +527,6 @@ theorem initialize_single_canary (br : BR) (steps : List Step) (w : World) (exp 
       have := ih (step br w exp st).w (step br w exp st).exp hndo
         (fun s hs => hev s (List.mem_cons_of_mem _ hs)) o ho
       omega
-
-/-- one call keeps every owned Deployment's replicas under a bound that covers the step's target -/
-theorem call_replicas_bound (br : BR) (op : Op) (c : Cfg) (w : World) (exp : Exp) (B : Int)
-    (hnd : namesNodup w = true) (hB0 : 0 ≤ B)
-    (htgt : ∀ t, target br w = some t → t ≤ B)
-    (h0 : ∀ d ∈ w.deps, d.owner = .this → ∀ r, d.replicas = some r → r ≤ B) :
-    ∀ d ∈ (call br op c w exp).w.deps, d.owner = .this → ∀ r, d.replicas = some r → r ≤ B := by
-  have hndw := (namesNodup_iff w).mp hnd
-  obtain ⟨id, f, ids, hf, hwhich, hids, hworld⟩ := call_shape br op c w exp
-  have hp : Pres f := which_pres hwhich
-  have hafter := shape_after hf hworld
-  intro d' hd' hown r hr
-  rcases mem_after hf hndw hafter hd' with ⟨d, hd, heff, _⟩ | ⟨_, ⟨_, _, st, _, hnew, _⟩, _, _, _⟩
-  · have hrep : d'.replicas = (if d.name = id then f d else d).replicas := by
-      rcases eff_some heff with h | ⟨_, h⟩ <;> rw [h]
-    have hown' : d.owner = .this := by rw [← (eff_pres hp heff).1]; exact hown
-    rw [hrep] at hr
-    rcases hwhich with rfl | ⟨_, _, rfl⟩ | ⟨_, _, rfl⟩ | ⟨_, cd, t, cur, st, rfl, rfl, _, _, _, htg, _, _, _⟩
-    · exact h0 d hd hown' r (by simpa using hr)
-    · exact h0 d hd hown' r (by split at hr <;> exact hr)
-    · exact h0 d hd hown' r (by split at hr <;> exact hr)
-    · split at hr
-      · simp only [setReplicas, Option.some.injEq] at hr
-        rw [← hr]; exact htgt t htg
-      · exact h0 d hd hown' r hr
-  · obtain ⟨tp, _, rfl⟩ := newCanary_some hnew
-    simp only [Option.some.injEq] at hr
-    omega
 
 /-- **C01 `canary_replicas_within_step`, over runs** — let `R` be the replicas of the (un-owned) stable
     Deployment and `B ≥ 0` a bound on `CalculateBatchReplicas(R, batches[i])` for every batch index `i` the
@@ -750,6 +719,14 @@ example :
       (fun o => (o.res, o.w.deps.length, matchCount br o.w))) =
     [(.err, 2, 0), (.err, 3, 1), (.ok, 3, 1), (.ok, 3, 1)] := by
   decide
+
+/-- the hypotheses of `canary_never_above_stable` / `canary_replicas_bounded` on this world (R = B = 10) -/
+example : (∃ st, w.find br.key = some st ∧ st.owner ≠ .this ∧ st.replicas = some 10) ∧
+    (∀ d ∈ w.deps, d.owner = .this → ∀ r, d.replicas = some r → r ≤ 10) := by
+  refine ⟨⟨stable, by decide, by decide, rfl⟩, ?_⟩
+  intro d hd ho r hr
+  simp only [w, List.mem_cons, List.mem_nil_iff, or_false] at hd
+  rcases hd with rfl | rfl | rfl | rfl <;> simp [canary, stale, foreign, stable] at hr ho <;> omega
 
 end Demo
 
